@@ -111,3 +111,83 @@ def crossing_routes(u, min_nodes=4):
     snks = [v for v in G if G.out_degree(v) == 0]
     planted = {tuple(p) for p in u["proutes"]}
     return [p for a in srcs for b in snks for p in nx.all_simple_paths(G, a, b) if tuple(p) not in planted and len(p) >= min_nodes]
+
+
+def replant(u, rng, weights=(1, 1, 3, 4, 5), max_extra=4):
+    """the same shape with its planted routes re-weighted and up to max_extra closed sub-walks
+    of each planted walk traversed once more; flows (edge and node) recomputed as the superposition.  Pure instance composition."""
+    routes = []
+    for p in u["proutes"]:
+        q = list(p)
+        for _ in range(rng.randint(0, max_extra)):
+            closed = [(i, j) for i in range(len(q)) for j in range(i + 1, len(q)) if q[i] == q[j] and j - i <= 3]
+            if not closed:
+                break
+            i, j = rng.choice(closed)
+            q = q[:j] + q[i:j] + q[j:]          # traverse that closed sub-walk once more
+        routes.append(q)
+    ws = [rng.choice(weights) for _ in routes]
+    v = dict(u)
+    v["proutes"], v["pweights"] = routes, ws
+    ef = {tuple(e): 0 for e in u["edges"]}
+    nf = {n: 0 for n in u["nodes"]}
+    for q, w in zip(routes, ws):
+        for a, b in zip(q[:-1], q[1:]):
+            ef[(a, b)] += w
+        for n in q:
+            nf[n] += w
+    v["ew"] = [ef[tuple(e)] for e in u["edges"]]
+    v["nw"] = [nf[n] for n in u["nodes"]]
+    return v
+
+
+def light_looping(u, rng, n=2):
+    """flows in which a LIGHT walk (weight 1) spins on two different self-loops a different number of times while a heavy
+    walk takes the same route without spinning: numbers like {w+1, m1, m2} that no two generators with small
+    multiplicities explain.  Returns up to n re-planted copies of u (none if no planted walk passes two self-loops)."""
+    out = []
+    loops = {e[0] for e in u["edges"] if e[0] == e[1]}
+    for p in u["proutes"]:
+        plain = [v for i, v in enumerate(p) if i == 0 or p[i - 1] != v]
+        on = [v for v in plain if v in loops]
+        if len(set(on)) < 2 or len(set(plain)) != len(plain):
+            continue
+        for _ in range(n):
+            a, b = rng.sample(sorted(set(on)), 2)
+            m = {a: rng.choice([2, 3, 4]), b: rng.choice([3, 4, 5, 7])}
+            if m[a] == m[b]:
+                m[b] += 1
+            light = []
+            for v in plain:
+                light += [v] * (1 + m.get(v, 0))
+            v2 = dict(u)
+            v2["proutes"], v2["pweights"] = [light, plain], [1, rng.choice([3, 4, 5, 6])]
+            ef = {tuple(e): 0 for e in u["edges"]}
+            nf = {x: 0 for x in u["nodes"]}
+            ok = True
+            for q, w in zip(v2["proutes"], v2["pweights"]):
+                for x, y in zip(q[:-1], q[1:]):
+                    if (x, y) not in ef:
+                        ok = False
+                        break
+                    ef[(x, y)] += w
+                for x in q:
+                    nf[x] += w
+            if ok and all(f > 0 for f in ef.values()):
+                v2["ew"] = [ef[tuple(e)] for e in u["edges"]]
+                v2["nw"] = [nf[x] for x in u["nodes"]]
+                out.append(v2)
+        break
+    return out
+
+
+def random_dag(rng, n, m):
+    """seeded random DAG on n nodes (edges low -> high name), isolated nodes dropped.  Generation only."""
+    names = list("abcdefgh")[:n]
+    E = set()
+    while len(E) < m:
+        i, j = sorted(rng.sample(range(n), 2))
+        E.add((names[i], names[j]))
+    used = sorted({v for e in E for v in e})
+    edges = sorted([u, v] for u, v in E)
+    return {"nodes": used, "edges": edges, "ew": [1] * len(edges), "nw": [1] * len(used), "proutes": [], "pweights": []}
